@@ -40,6 +40,7 @@ package airgapped
 //@   ensures $logged <= old($logged) + 1
 
 //@ func (*Machine).GetOperationResult
+//@   safety C12
 //@   nosafety
 //@   requires am != nil
 //@   modifies *
@@ -108,6 +109,7 @@ package airgapped
 //   $ciphers = byte strings produced by encrypt so far, $cipherKeysOK = every one of them was made with am.encryptionKey
 //@ ghost var $ciphers set[bytesvalue]
 //@ func encrypt
+//@   safety C04
 //@   nosafety
 //@   pure
 //@   modifies $ciphers
